@@ -17,6 +17,9 @@ Proof.
   replace (z + i) with ((z + 1) + (i - 1)) by lia. apply (IH _ _ H). lia.
 Qed.
 
+Lemma all_from_spec_nat n : forall z f, all_from n z f = true -> forall i, (i < n)%nat -> f (z + Z.of_nat i) = true.
+Proof. intros z f H i Hi. apply (all_from_spec n z f H). lia. Qed.
+
 Definition triple_eqb (a b : Z * Z * Z) : bool :=
   let '(a1, a2, a3) := a in let '(b1, b2, b3) := b in (a1 =? b1) && (a2 =? b2) && (a3 =? b3).
 
